@@ -250,8 +250,14 @@ class C18(Property):
                     [{"name": "Weight", "tag": "wght", "min": 400, "default": 400, "max": 700}],
                     [{"spec": moved(spec, 100), "location": {"Weight": 400}},
                      {"spec": moved(spec2, 160), "location": {"Weight": 700}}])
-                ufo2ft.compileVariableTTF(other, useProductionNames=False, featureWriters=writers)
-                tt = O.reload(ufo2ft.compileVariableTTF(ds, useProductionNames=False, featureWriters=writers))
+                # (compileVariableTTF does not hand its featureWriters argument to the variable feature
+                #  compiler; the exported VariableFeatureCompiler class is the seam that takes instances)
+                from ufo2ft.featureCompiler import VariableFeatureCompiler
+                for doc in (other, ds):
+                    vf = ufo2ft.compileVariableTTF(doc, useProductionNames=False)
+                    VariableFeatureCompiler(doc.findDefault().font, doc, ttFont=vf,
+                                            featureWriters=writers).compile()
+                tt = O.reload(vf)
             elif c["ds"] == "var":
                 tt = O.reload(ufo2ft.compileVariableTTF(ds, useProductionNames=False))
             else:
